@@ -273,6 +273,31 @@ class C10(Monitor):
     prop = "C10"
     hooks = ("driver",)
 
+    def start(self, ctx):
+        # access rights come from the inputs: the fleets file, and for a human driver's home base (and its charger) a
+        # membership private to that driver - the loaded entities must carry them, or every later test compares against
+        # rights that were lost on the way in
+        spec = ctx.spec if isinstance(ctx.spec, dict) else {}
+        s = ctx.s
+        owners = collections.defaultdict(list)
+        for v in spec.get("vehicles") or []:
+            if v.get("home_base"):
+                owners[v["home_base"]].append(v["id"])
+        for bid, vids in owners.items():
+            b = s.bases.get(bid)
+            if b is None or len(vids) != 1:
+                continue  # shared home bases: whose private id the base keeps is left open (DESIGN 6)
+            v = s.vehicles.get(vids[0])
+            if v is None:
+                continue
+            ctx.count("c10_home_bases_checked")
+            targets = [("base", b)] + ([("station", s.stations[b.station_id])] if b.station_id and b.station_id in s.stations else [])
+            for kind, e in targets:
+                private = set(e.membership.memberships) & set(v.membership.memberships)
+                others = [o for o in s.vehicles.values() if o.id != v.id and e.membership.grant_access_to_membership(o.membership) and not any(o.id in (f.get("vehicles") or []) and e.id in ((f.get("bases") or []) + (f.get("stations") or [])) for f in (spec.get("fleets") or {}).values())]
+                if not private or others:
+                    ctx.violate("C10", f"home-{kind}-not-private", f"home {kind} {e.id} of driver {v.id} is loaded with memberships {sorted(e.membership.memberships)}: " + ("its driver has no access" if not private else f"vehicles {sorted(o.id for o in others)[:4]} have access without sharing a fleet with it"), base=bid, vehicle=v.id)
+
     def on_step(self, ctx):
         s = ctx.s
         # "never *starts* ...": judged for the activities that began in this step. With fixed memberships that is the same
